@@ -86,13 +86,17 @@ func msgLen(tp *tape.Tape) int {
 
 func callLen(tp *tape.Tape, remaining int) int {
 	var n int
-	switch tp.Pick(3, 4, 2, 1) {
+	switch tp.Pick(3, 4, 2, 1, 2) {
 	case 0:
 		n = 1 + tp.Choose(3)
 	case 1:
 		n = []int{15, 16, 17, 31, 32, 33, 34}[tp.Choose(7)]
 	case 2:
 		n = 1 + tp.Choose(100)
+	case 4:
+		// k*2^j plus a block-sized offset: lengths that are special only
+		// because of an internal batch or scratch size (C10-35)
+		n = (1+tp.Choose(4))<<(6+tp.Choose(7)) + []int{0, 1, -1, 16, 17, 15, 32, 33}[tp.Choose(8)]
 	default:
 		n = remaining
 	}
